@@ -77,6 +77,8 @@ struct Loaded {
     is_glyf: bool,
     /// ≤ 12 glyph ids spread over the font, used where the space is quadratic in configurations
     sel: Vec<GlyphId>,
+    /// not one of the DESIGN fonts F: rest of the in-repo corpus, takes part in parts 1, 2 and 3b only
+    extra: bool,
 }
 
 fn load_fonts() -> Result<Vec<Loaded>, String> {
@@ -87,10 +89,23 @@ fn load_fonts() -> Result<Vec<Loaded>, String> {
         datas.push((p.rsplit('/').next().unwrap().to_string(), b));
     }
     datas.push(("synthetic_prep_state.ttf".into(), synth::build()));
-    for (name, b) in datas {
+    let n_f = datas.len();
+    // the rest of the corpus (sorted by path), after F so that F's indices are stable
+    for (path, b) in corpus_fonts() {
+        let name = path.rsplit('/').next().unwrap().to_string();
+        if datas.iter().any(|(n, _)| *n == name) {
+            continue;
+        }
+        datas.push((name, b));
+    }
+    for (idx, (name, b)) in datas.into_iter().enumerate() {
         // fonts live for the whole process
         let data: &'static [u8] = Box::leak(b.into_boxed_slice());
-        let font = FontRef::new(data).map_err(|e| format!("{name}: {e}"))?;
+        let font = match FontRef::from_index(data, 0) {
+            Ok(f) => f,
+            Err(e) if idx < n_f => return Err(format!("{name}: {e}")),
+            Err(_) => continue,
+        };
         let outlines = font.outline_glyphs();
         let n_glyphs = font.maxp().map(|m| m.num_glyphs() as u32).unwrap_or(0);
         let axes = font.axes().len();
@@ -98,7 +113,7 @@ fn load_fonts() -> Result<Vec<Loaded>, String> {
         let k = 12u32.min(n_glyphs);
         let mut sel: Vec<GlyphId> = (0..k).map(|i| GlyphId::new(((i as u64 * n_glyphs as u64) / k.max(1) as u64) as u32)).collect();
         sel.dedup();
-        out.push(Loaded { name, font, outlines, n_glyphs, axes, is_glyf, sel });
+        out.push(Loaded { name, font, outlines, n_glyphs, axes, is_glyf, sel, extra: idx >= n_f });
     }
     Ok(out)
 }
@@ -169,11 +184,28 @@ fn options_of(opt: u8) -> HintingOptions {
     }
 }
 
+/// per-font glyph cap for the corpus-wide parts (set once from the tier; F is never capped)
+static EXTRA_GLYPH_CAP: std::sync::atomic::AtomicU32 = std::sync::atomic::AtomicU32::new(u32::MAX);
+/// sizes used for the extra corpus fonts
+static EXTRA_ALL_SIZES: std::sync::atomic::AtomicBool = std::sync::atomic::AtomicBool::new(false);
+
+fn glyph_limit(f: &Loaded) -> u32 {
+    if f.extra {
+        f.n_glyphs.min(EXTRA_GLYPH_CAP.load(std::sync::atomic::Ordering::Relaxed))
+    } else {
+        f.n_glyphs
+    }
+}
+
 /// all configurations of one font (locations beyond "none" only for variable fonts)
 fn configs_of(fonts: &[Loaded], fi: usize, with_unhinted: bool) -> Vec<Cfg> {
     let mut v = vec![];
     let locs: &[u8] = if fonts[fi].axes > 0 { &[0, 1, 2] } else { &[0] };
+    let all_sizes = !fonts[fi].extra || EXTRA_ALL_SIZES.load(std::sync::atomic::Ordering::Relaxed);
     for size in 0..3u8 {
+        if !all_sizes && size != 1 {
+            continue;
+        }
         for &loc in locs {
             for opt in 0..(if with_unhinted { 7u8 } else { N_HINTED_OPTS }) {
                 v.push(Cfg { font: fi as u8, size, loc, opt });
@@ -372,10 +404,20 @@ impl Local {
     }
 }
 
+static MERGE_SEQ: std::sync::atomic::AtomicU32 = std::sync::atomic::AtomicU32::new(0);
+
 fn merge(run: &Run, locals: Vec<Local>) {
+    let mut all = HashSet::new();
+    let mut nt = HashSet::new();
     for l in locals {
-        run.observe_many(&l.all, &l.nontrivial);
+        all.extend(l.all);
+        nt.extend(l.nontrivial);
     }
+    run.observe_many(&all, &nt);
+    // per-phase distinct counts (phases in execution order: 3 pairs, [3 triples], 1, 2a, 2b, 3b)
+    let k = MERGE_SEQ.fetch_add(1, std::sync::atomic::Ordering::Relaxed);
+    run.count(&format!("phase{}_distinct", k), all.len() as u64);
+    run.count(&format!("phase{}_distinct_nontrivial", k), nt.len() as u64);
 }
 
 fn main() {
@@ -390,17 +432,23 @@ fn body(run: &Run, replay: Option<&Value>) {
         run.machinery_error("could not install the skrifa scheduling hook");
         return;
     }
-    let fonts = match load_fonts() {
+    let wide = match load_fonts() {
         Ok(f) => f,
         Err(e) => {
             run.machinery_error(&format!("corpus font missing: {e}"));
             return;
         }
     };
+    EXTRA_GLYPH_CAP.store(run.tier.pick(96, 4096), std::sync::atomic::Ordering::Relaxed);
+    EXTRA_ALL_SIZES.store(true, std::sync::atomic::Ordering::Relaxed);
     if let Some(case) = replay {
-        replay_case(run, &fonts, case);
+        replay_case(run, &wide, case);
         return;
     }
+    // F = the DESIGN font set (a prefix of `wide`); parts 3 and 4 range over F only
+    let n_f = wide.iter().position(|f| f.extra).unwrap_or(wide.len());
+    let fonts = &wide[..n_f];
+    run.bound("corpus_fonts_for_parts_1_2_3b", json!({"count": wide.len() - n_f, "glyph_cap_per_font": run.tier.pick(96, 4096), "sizes": json!(SIZE_NAMES)}));
     run.bound(
         "fonts",
         json!(fonts.iter().map(|f| json!({"name": f.name, "glyphs": f.n_glyphs, "axes": f.axes, "glyf": f.is_glyf, "selected": f.sel.len()})).collect::<Vec<_>>()),
@@ -412,9 +460,9 @@ fn body(run: &Run, replay: Option<&Value>) {
     if std::env::var("C12_DEBUG_SYNTH").is_ok() {
         // development aid: print what the synthetic font shows under each interpreter configuration
         let fi = fonts.len() - 1;
-        for c in configs_of(&fonts, fi, true) {
-            let o = if c.opt == OPT_UNHINTED { continue } else { observe_sel(&fonts, c, &make_instance(&fonts, c)) };
-            eprintln!("{:?} -> {:?}", c.json(&fonts)["raw"], o.map(|v| v.iter().map(|o| o.brief()).collect::<Vec<_>>()));
+        for c in configs_of(fonts, fi, true) {
+            let o = if c.opt == OPT_UNHINTED { continue } else { observe_sel(fonts, c, &make_instance(fonts, c)) };
+            eprintln!("{:?} -> {:?}", c.json(fonts)["raw"], o.map(|v| v.iter().map(|o| o.brief()).collect::<Vec<_>>()));
         }
     }
     let mut timing = vec![];
@@ -424,15 +472,15 @@ fn body(run: &Run, replay: Option<&Value>) {
         timing.push(json!({"part": name, "wall_s": ((now - t) * 100.0).round() / 100.0}));
         t = now;
     };
-    part3_histories(run, &fonts);
+    part3_histories(run, fonts);
     lap("3 histories", run);
-    part4_schedules(run, &fonts);
+    part4_schedules(run, fonts);
     lap("4 schedules", run);
-    part1_wellformed(run, &fonts);
+    part1_wellformed(run, &wide);
     lap("1 well-formedness", run);
-    part2_buffers(run, &fonts);
+    part2_buffers(run, &wide);
     lap("2 buffers", run);
-    part3b_draw_order(run, &fonts);
+    part3b_draw_order(run, &wide);
     lap("3b draw order", run);
     run.extra("wall_by_part", json!(timing));
 }
@@ -459,7 +507,7 @@ fn part1_wellformed(run: &Run, fonts: &[Loaded]) {
                 return l;
             }
             let mut draws = 0u64;
-            for gid in 0..f.n_glyphs {
+            for gid in 0..glyph_limit(f) {
                 let Some(gl) = f.outlines.get(GlyphId::new(gid)) else { continue };
                 let how = match &inst {
                     Some(Ok(i)) => How::Hinted(i),
@@ -482,7 +530,7 @@ fn part1_wellformed(run: &Run, fonts: &[Loaded]) {
                         if let Err(w) = well_formed(cmds) {
                             run.violation(
                                 &format!("ill-formed pen stream for a TrueType outline ({}): {}", OPT_NAMES[c.opt as usize], w.split(" at command").next().unwrap_or("")),
-                                &format!("{} gid {gid} under {:?}: {w}", f.name, c.json(fonts)),
+                                &format!("{} gid {gid} under {}: {w}", f.name, c.json(fonts)),
                                 json!({"part": 1, "cfg": c.json(fonts), "gid": gid}),
                             );
                         }
@@ -544,7 +592,7 @@ fn part2_buffers(run: &Run, fonts: &[Loaded]) {
             }
             let hinting = if c.opt == OPT_UNHINTED { Hinting::None } else { Hinting::Embedded };
             let mut draws = 0u64;
-            for gid in 0..f.n_glyphs {
+            for gid in 0..glyph_limit(f) {
                 let Some(gl) = f.outlines.get(GlyphId::new(gid)) else { continue };
                 let how = match &inst {
                     Some(Ok(i)) => How::Hinted(i),
@@ -565,8 +613,12 @@ fn part2_buffers(run: &Run, fonts: &[Loaded]) {
                                 (Outcome::Err(_), _) => "differs from failing reference".to_string(),
                             };
                             run.violation(
-                                &format!("draw with caller memory of draw_memory_size at alignment {align} ({}): {class}", OPT_NAMES[c.opt as usize].split('/').next().unwrap()),
-                                &format!("{} gid {gid} {:?}: buffer of {size} bytes at address ≡ {align} (mod 8) filled {fill:02x}: {} vs library-allocated {}", f.name, c.json(fonts), got.brief(), reference.brief()),
+                                &if class.starts_with("fails") {
+                                    format!("draw with caller memory of draw_memory_size at address ≡ {} (mod 4) ({}): {class}", align % 4, OPT_NAMES[c.opt as usize].split('/').next().unwrap())
+                                } else {
+                                    format!("draw with caller memory of draw_memory_size ({}): {class}", OPT_NAMES[c.opt as usize].split('/').next().unwrap())
+                                },
+                                &format!("{} gid {gid} {}: buffer of {size} bytes at address ≡ {align} (mod 8) filled {fill:02x}: {} vs library-allocated {}", f.name, c.json(fonts), got.brief(), reference.brief()),
                                 json!({"part": 2, "cfg": c.json(fonts), "gid": gid, "align": align, "fill": fill}),
                             );
                         }
@@ -607,14 +659,14 @@ fn part2_buffers(run: &Run, fonts: &[Loaded]) {
                 (Some(Err(_)), _) | (_, Some(Err(_))) => {
                     run.violation(
                         &format!("HintingInstance::new differs between None and all-zero location ({})", OPT_NAMES[cz.opt as usize]),
-                        &format!("{}: {:?}", f.name, cz.json(fonts)),
+                        &format!("{}: {}", f.name, cz.json(fonts)),
                         json!({"part": "2z", "cfg": cz.json(fonts), "gid": 0}),
                     );
                     return l;
                 }
                 _ => {}
             }
-            for gid in 0..f.n_glyphs {
+            for gid in 0..glyph_limit(f) {
                 let Some(gl) = f.outlines.get(GlyphId::new(gid)) else { continue };
                 let (a, b) = match (&iz, &inn) {
                     (Some(Ok(z)), Some(Ok(nn))) => (draw(&gl, &How::Hinted(z), None), draw(&gl, &How::Hinted(nn), None)),
@@ -626,7 +678,7 @@ fn part2_buffers(run: &Run, fonts: &[Loaded]) {
                 if a != b {
                     run.violation(
                         &format!("draw differs between None and all-zero location ({})", OPT_NAMES[cz.opt as usize]),
-                        &format!("{} gid {gid} {:?}: zero-vector {} vs none {}", f.name, cz.json(fonts), a.brief(), b.brief()),
+                        &format!("{} gid {gid} {}: zero-vector {} vs none {}", f.name, cz.json(fonts), a.brief(), b.brief()),
                         json!({"part": "2z", "cfg": cz.json(fonts), "gid": gid}),
                     );
                 }
@@ -660,37 +712,36 @@ fn part3_histories(run: &Run, fonts: &[Loaded]) {
     run.extra("part3_distinct_fresh_observations", json!(distinct_fresh.len()));
 
     // ---- all ordered pairs a -> b -----------------------------------------------------------
-    let locals: Vec<Local> = (0..k.len())
+    // history: new(a); draw one glyph of a; reconfigure(b); draw the selected glyphs of b
+    let nk = k.len();
+    let locals: Vec<Local> = (0..nk * nk)
         .into_par_iter()
-        .map(|ai| {
-            let mut l = Local::new();
-            let a = k[ai];
+        .fold(Local::new, |mut l, idx| {
+            let (ai, bi) = (idx / nk, idx % nk);
+            let (a, b) = (k[ai], k[bi]);
             let fa = &fonts[a.font as usize];
-            let mut n = 0u64;
-            for (bi, &b) in k.iter().enumerate() {
-                let mut inst = match make_instance(fonts, a) {
-                    Ok(i) => i,
-                    Err(_) => HintingInstance::new(&fa.outlines, Size::unscaled(), LocationRef::default(), options_of(5)).unwrap(),
-                };
-                // dirty whatever a draw can dirty
-                if let Some(gl) = fa.outlines.get(*fa.sel.last().unwrap()) {
-                    let _ = draw(&gl, &How::Hinted(&inst), None);
-                }
-                let r = reconfigure(fonts, &mut inst, b);
-                let got = observe_sel(fonts, b, &r.map(|_| inst));
-                n += 1;
-                let nt = matches!(&fresh[bi], Ok(v) if v.iter().any(|o| matches!(o, Outcome::Ok{cmds,..} if !cmds.is_empty())));
-                l.add(digest_of(&("p3", a, b, &got)), nt && a != b);
-                if got != fresh[bi] {
-                    report_history(run, fonts, &[a, b], &first_diff(&got, &fresh[bi]), false);
-                }
+            let mut inst = match make_instance(fonts, a) {
+                Ok(i) => i,
+                // a cannot be instantiated: start from the empty instance instead
+                Err(_) => HintingInstance::new(&fa.outlines, Size::unscaled(), LocationRef::default(), options_of(5)).unwrap(),
+            };
+            // dirty whatever a draw can dirty
+            if let Some(gl) = fa.outlines.get(*fa.sel.last().unwrap()) {
+                let _ = draw(&gl, &How::Hinted(&inst), None);
             }
-            run.evals(n);
-            run.trans(n * (2 + fonts[a.font as usize].sel.len() as u64));
-            run.count("part3_ordered_pairs", n);
+            let r = reconfigure(fonts, &mut inst, b);
+            let got = observe_sel(fonts, b, &r.map(|_| inst));
+            let nt = matches!(&fresh[bi], Ok(v) if v.iter().any(|o| matches!(o, Outcome::Ok{cmds,..} if !cmds.is_empty())));
+            l.add(digest_of(&("p3", a, b, &got)), nt && a != b);
+            if got != fresh[bi] {
+                report_history(run, fonts, &[a, b], &first_diff(&got, &fresh[bi]), false);
+            }
+            run.eval();
+            run.trans(2 + fonts[b.font as usize].sel.len() as u64);
             l
         })
         .collect();
+    run.count("part3_ordered_pairs", (nk * nk) as u64);
     merge(run, locals);
     run.sample(json!({"part": "3 histories", "example_pair": [k[1].json(fonts), k[k.len() - 2].json(fonts)], "pairs": k.len() * k.len()}));
 
@@ -709,8 +760,8 @@ fn part3_histories(run: &Run, fonts: &[Loaded]) {
                 kp.push(i);
             }
         }
-        // thin to ≤ 40 keeping a fixed stride
-        while kp.len() > 40 {
+        // thin to ≤ 48 keeping a fixed stride
+        while kp.len() > 48 {
             let drop: Vec<usize> = kp.iter().copied().skip(3).step_by(4).collect();
             kp.retain(|x| !drop.contains(x));
         }
@@ -769,17 +820,17 @@ fn report_history(run: &Run, fonts: &[Loaded], h: &[Cfg], diff: &str, cloned: bo
     let last = h[h.len() - 1];
     let prev = h[h.len() - 2];
     let fmt = |c: Cfg| if fonts[c.font as usize].is_glyf { "glyf" } else { "cff" };
+    let engine = |c: Cfg| OPT_NAMES[c.opt as usize].split('/').next().unwrap();
     run.violation(
         &format!(
-            "HintingInstance::reconfigure{} leaks history: to ({}, {}) from ({}, {}){}",
+            "HintingInstance::reconfigure{} leaks history: draws for ({}, {}) after a {} configuration{}",
             if cloned { "+clone" } else { "" },
             fmt(last),
-            OPT_NAMES[last.opt as usize],
+            engine(last),
             fmt(prev),
-            OPT_NAMES[prev.opt as usize],
-            if last.font == prev.font { " same font" } else { "" }
+            if last.font == prev.font { " of the same font" } else { "" }
         ),
-        &format!("history {:?}: {diff}", h.iter().map(|c| c.json(fonts)["raw"].clone()).collect::<Vec<_>>()),
+        &format!("history {}: {diff}", serde_json::to_string(&h.iter().map(|c| c.json(fonts)["raw"].clone()).collect::<Vec<_>>()).unwrap()),
         json!({"part": 3, "history": h.iter().map(|c| c.json(fonts)).collect::<Vec<_>>(), "cloned": cloned}),
     );
 }
@@ -793,7 +844,8 @@ fn part3b_draw_order(run: &Run, fonts: &[Loaded]) {
     run.bound("draw_order_max_glyphs_per_font", json!(max_glyphs));
     let mut cfgs = vec![];
     for (fi, f) in fonts.iter().enumerate() {
-        for opt in [0u8, 1, 3, 5, OPT_UNHINTED] {
+        let opts: &[u8] = if f.extra { &[1, OPT_UNHINTED] } else { &[0, 1, 3, 5, OPT_UNHINTED] };
+        for &opt in opts {
             for loc in if f.axes > 0 { vec![0u8, 2] } else { vec![0u8] } {
                 cfgs.push(Cfg { font: fi as u8, size: 1, loc, opt });
             }
@@ -834,7 +886,7 @@ fn part3b_draw_order(run: &Run, fonts: &[Loaded]) {
                     if got != alone[ib] {
                         run.violation(
                             &format!("draw depends on the glyph drawn before ({}, {})", if f.is_glyf { "glyf" } else { "cff" }, OPT_NAMES[c.opt as usize]),
-                            &format!("{} {:?}: gid {gb} after gid {ga}: {} vs alone {}", f.name, c.json(fonts), got.brief(), alone[ib].brief()),
+                            &format!("{} {}: gid {gb} after gid {ga}: {} vs alone {}", f.name, c.json(fonts), got.brief(), alone[ib].brief()),
                             json!({"part": "3b", "cfg": c.json(fonts), "gid": gb, "before": ga}),
                         );
                     }
@@ -971,24 +1023,77 @@ fn part4_schedules(run: &Run, fonts: &[Loaded]) {
             }
         }
     }
-    // 3 threads
-    let n3 = run.tier.pick(3u32, 7u32);
+    // 3 threads. Style classes are not public, so glyphs are classified by observation: two glyphs
+    // share a style's metrics slot iff drawing both through one fresh instance computes metrics once.
+    let styles: BTreeMap<usize, GlyphStyles> = sched_fonts.iter().map(|&fi| (fi, GlyphStyles::new(&fonts[fi].outlines))).collect();
+    let mut triple_report = vec![];
     for &fi in &sched_fonts {
-        let n = fonts[fi].n_glyphs.min(n3 + 1);
-        for a in 1..n {
-            for b in a..n {
-                for c in b..n {
-                    if run.tier == Tier::Quick && !(a == b && b == c || (a + 1 == b && b + 1 == c) || (a == b && b + 1 == c)) {
-                        continue;
-                    }
-                    jobs.push(SchedJob { font: fi, glyphs: vec![a, b, c], opt: if (a + b + c) % 2 == 0 { 3 } else { 4 }, size: 1 });
+        let f = &fonts[fi];
+        let n = f.n_glyphs.min(max_g);
+        let mut classes: Vec<Vec<u32>> = vec![];
+        for g in 0..n {
+            let Some(gl) = f.outlines.get(GlyphId::new(g)) else { continue };
+            let mut placed = false;
+            for cl in classes.iter_mut() {
+                let inst = HintingInstance::new(&f.outlines, Size::new(16.0), LocationRef::default(), HintingOptions { engine: Engine::Auto(Some(styles[&fi].clone())), target: Target::default() }).unwrap();
+                COMPUTES.with(|c| c.set(0));
+                let rep = f.outlines.get(GlyphId::new(cl[0])).unwrap();
+                let _ = draw(&rep, &How::Hinted(&inst), None);
+                let _ = draw(&gl, &How::Hinted(&inst), None);
+                if COMPUTES.with(|c| c.get()) <= 1 {
+                    cl.push(g);
+                    placed = true;
+                    break;
                 }
             }
+            if !placed {
+                classes.push(vec![g]);
+            }
+        }
+        // largest class first (stable), so that the primary triple races on a widely shared slot
+        classes.sort_by_key(|c| std::cmp::Reverse(c.len()));
+        let mut triples: Vec<Vec<u32>> = vec![];
+        let c0 = &classes[0];
+        triples.push(vec![c0[0], c0[0], c0[0]]);
+        if c0.len() > 1 {
+            triples.push(vec![c0[0], c0[1], c0[0]]);
+        }
+        if c0.len() > 2 {
+            triples.push(vec![c0[0], c0[1], c0[2]]);
+        }
+        if classes.len() > 1 {
+            triples.push(vec![c0[0], classes[1][0], classes[1][0]]);
+            triples.push(vec![c0[0], classes[1][0], c0[0]]);
+        }
+        if classes.len() > 2 {
+            triples.push(vec![c0[0], classes[1][0], classes[2][0]]);
+        }
+        if run.tier == Tier::Thorough {
+            // all multisets of 3 over up to 2 representatives of each of the first 4 classes
+            let reps: Vec<u32> = classes.iter().take(4).flat_map(|c| c.iter().take(2).copied()).collect();
+            for (x, &a) in reps.iter().enumerate() {
+                for (y, &b) in reps.iter().enumerate().skip(x) {
+                    for &c in &reps[y..] {
+                        let t = vec![a, b, c];
+                        if !triples.contains(&t) {
+                            triples.push(t);
+                        }
+                    }
+                }
+            }
+        } else if f.name.contains("seriftc") {
+            // CJK metrics cost ~1 ms per computation: in the quick tier this font takes part in
+            // 3-thread search with one triple only
+            triples.truncate(1);
+        }
+        triple_report.push(json!({"font": f.name, "metric_classes_among_first_glyphs": classes.len(), "triples": triples}));
+        for (i, t) in triples.into_iter().enumerate() {
+            jobs.push(SchedJob { font: fi, glyphs: t, opt: if i % 2 == 0 { 3 } else { 4 }, size: 1 });
         }
     }
+    run.bound("schedule_3thread_groups", json!(triple_report));
     run.bound("schedule_fonts", json!(sched_fonts.iter().map(|i| fonts[*i].name.clone()).collect::<Vec<_>>()));
     run.bound("schedule_glyphs_per_font_2threads", json!(max_g));
-    let styles: BTreeMap<usize, GlyphStyles> = sched_fonts.iter().map(|&fi| (fi, GlyphStyles::new(&fonts[fi].outlines))).collect();
     // longest (3-thread) jobs first
     jobs.sort_by_key(|j| std::cmp::Reverse(j.glyphs.len()));
     let results: Vec<(SchedJob, Result<SchedResult, String>)> = jobs
